@@ -14,3 +14,4 @@ import SkyllhModel.Props.C19
 import SkyllhModel.Props.C05
 import SkyllhModel.Props.C01
 import SkyllhModel.Props.C03
+import SkyllhModel.Props.C02
